@@ -17,7 +17,7 @@ ID = "C04"
 TECHNIQUE = ("Hypothesis-generated programs (nested contexts, object creation/read/write/apply/propagate, exceptions at "
              "generated points) interpreted on the real library and on a reference model of outer-basis values plus a "
              "stack of validated transformation matrices")
-LEVEL = ("Programs of depth <= 4 over operators, self-adjoint operators, Hamiltonians, density matrices, transition "
+LEVEL = ("(Also: time-dependent relaxation tensors, objects derived inside contexts with evolution.at() / get_component(), constructor calls that the library refuses, the basis operator of the enclosing context as part of the bookkeeping.) Programs of depth <= 4 over operators, self-adjoint operators, Hamiltonians, density matrices, transition "
          "dipole moments, superoperators, Lindblad forms (operator and tensor form) and density-matrix evolutions are "
          "run with real `with eigenbasis_of(...)` statements, with private exceptions and library TypeErrors raised at "
          "generated statements and unwound through one or two levels. Every read inside a context must equal the "
